@@ -229,6 +229,71 @@ fn gen_app(r: &mut StdRng) -> Value {
     json!({"app": true, "config": config, "query": query, "trav_du": dus[r.gen_range(0..3)], "trav_tu": tus[r.gen_range(0..4)]})
 }
 
+/// typed custom features (signed / unsigned integer, boolean, floating point): one model holding one feature of each
+/// format among ordinary ones; the initial values are read back through the typed getters, values are written through
+/// the typed setters and read back, getters / setters of another type must refuse, other slots must stay as they were
+fn run_codec(out: &mut Out, r: &mut StdRng) {
+    let ints: [i64; 9] = [-3, -1, 0, 1, 7, -7, 250, -1000000, 123456];
+    let pick = |r: &mut StdRng| ints[r.gen_range(0..ints.len())];
+    let (si, ui, bi, fi) = (pick(r), pick(r).abs(), r.gen_bool(0.5), pick(r) as f64 / 4.0);
+    let scn = json!({"check": "codec", "signed": si, "unsigned": ui, "bool": bi, "float": fi});
+    out.scenario(&scn);
+    let cf = |format: CustomFeatureFormat| StateFeature::Custom { r#type: String::from("t"), unit: String::from("u"), format };
+    let mut feats = vec![
+        (String::from("s"), cf(CustomFeatureFormat::SignedInteger { initial: si })),
+        (String::from("u"), cf(CustomFeatureFormat::UnsignedInteger { initial: ui as u64 })),
+        (String::from("b"), cf(CustomFeatureFormat::Boolean { initial: bi })),
+        (String::from("f"), cf(CustomFeatureFormat::FloatingPoint { initial: fi.into() })),
+        (String::from("d"), StateFeature::Distance { distance_unit: du("meters"), initial: Distance::new(5.0) }),
+        (String::from("t"), StateFeature::Time { time_unit: tu("seconds"), initial: Time::new(6.0) }),
+    ];
+    for i in (1..feats.len()).rev() {
+        feats.swap(i, r.gen_range(0..=i));
+    }
+    let sm = StateModel::new(feats);
+    let mut state = match sm.initial_state() {
+        Ok(s) => s,
+        Err(e) => {
+            out.event(json!({"ev": "SMInitError", "msg": e.to_string()}));
+            return;
+        }
+    };
+    let b2i = |b: bool| if b { 1 } else { 0 };
+    let names = ["s", "u", "b", "f"].map(String::from);
+    // (value read through the matching getter, every non-matching getter refuses)
+    let read = |st: &[StateVar]| -> Value {
+        let s_ = sm.get_custom_i64(st, &names[0]).map(|x| json!(x)).unwrap_or(json!("err"));
+        let u_ = sm.get_custom_u64(st, &names[1]).map(|x| json!(x)).unwrap_or(json!("err"));
+        let b_ = sm.get_custom_bool(st, &names[2]).map(|x| json!(b2i(x))).unwrap_or(json!("err"));
+        let f_ = sm.get_custom_f64(st, &names[3]).map(|x| json!(scaled(x, 4.0))).unwrap_or(json!("err"));
+        let refuse = sm.get_custom_f64(st, &names[0]).is_err() && sm.get_custom_u64(st, &names[0]).is_err() && sm.get_custom_bool(st, &names[0]).is_err()
+            && sm.get_custom_i64(st, &names[1]).is_err() && sm.get_custom_f64(st, &names[1]).is_err()
+            && sm.get_custom_i64(st, &names[2]).is_err() && sm.get_custom_u64(st, &names[2]).is_err()
+            && sm.get_custom_i64(st, &names[3]).is_err() && sm.get_custom_bool(st, &names[3]).is_err();
+        json!({"s": s_, "u": u_, "b": b_, "f4": f_, "refuse": refuse,
+               "d": sm.get_distance(st, &String::from("d"), &du("meters")).map(|x| scaled(x.as_f64(), 1.0)).unwrap_or(-1),
+               "t": sm.get_time(st, &String::from("t"), &tu("seconds")).map(|x| scaled(x.as_f64(), 1.0)).unwrap_or(-1)})
+    };
+    out.event(json!({"ev": "SMCodecInit", "s": si, "u": ui, "b": b2i(bi), "f4": scaled(fi, 4.0), "read": read(&state), "len": state.len()}));
+    for _ in 0..6 {
+        let which = r.gen_range(0..4);
+        let v = pick(r);
+        let (ok, wrong_refused) = match which {
+            0 => (sm.set_custom_i64(&mut state, &names[0], &v).is_ok(),
+                  sm.set_custom_f64(&mut state, &names[0], &1.5).is_err() && sm.set_custom_bool(&mut state, &names[0], &true).is_err()),
+            1 => (sm.set_custom_u64(&mut state, &names[1], &(v.unsigned_abs())).is_ok(),
+                  sm.set_custom_i64(&mut state, &names[1], &-2).is_err() && sm.set_custom_f64(&mut state, &names[1], &1.5).is_err()),
+            2 => (sm.set_custom_bool(&mut state, &names[2], &(v % 2 != 0)).is_ok(),
+                  sm.set_custom_i64(&mut state, &names[2], &-2).is_err() && sm.set_custom_u64(&mut state, &names[2], &2).is_err()),
+            _ => (sm.set_custom_f64(&mut state, &names[3], &(v as f64 / 4.0)).is_ok(),
+                  sm.set_custom_i64(&mut state, &names[3], &-2).is_err() && sm.set_custom_bool(&mut state, &names[3], &true).is_err()),
+        };
+        let val = match which { 0 => v, 1 => v.abs(), 2 => b2i(v % 2 != 0), _ => v };
+        let wname = ["s", "u", "b", "f4"][which];
+        out.event(json!({"ev": "SMCodecSet", "which": wname, "val": val, "ok": ok, "wrong_refused": wrong_refused, "read": read(&state), "len": state.len()}));
+    }
+}
+
 pub fn main(args: &[String]) -> i32 {
     let mut out = Out::new();
     let n = arg_usize(args, "--random", 300);
@@ -242,6 +307,10 @@ pub fn main(args: &[String]) -> i32 {
     for i in 0..arg_usize(args, "--app", 0) {
         let s = gen_app(&mut r3);
         guarded(&mut out, |o| run_app_scenario(o, &s, i));
+    }
+    let mut r4 = rng(114);
+    for _ in 0..(n / 3).max(20) {
+        guarded(&mut out, |o| run_codec(o, &mut r4));
     }
     out.flush();
     0
